@@ -3,11 +3,11 @@ package main
 // Contract-expression builtins (spec mode).
 
 import (
-	"strconv"
 	"fmt"
 	"go/ast"
 	"go/token"
 	"go/types"
+	"strconv"
 	"strings"
 )
 
